@@ -61,7 +61,8 @@ func judge(r *core.Run, sc *sims.Scenario, out *sims.Outcome) {
 		return
 	}
 	if out.Panic != nil {
-		r.Count("panicked", 1) // C09's business
+		r.Count("panicked", 1)
+		r.Violation("panicked-instead-of-a-verdict", "the check panicked: "+out.Panic.Value, sc)
 		return
 	}
 	if out.Err != nil || len(out.Results) != sc.Len || out.Results[0] == nil {
